@@ -140,6 +140,11 @@ func registerVerifrt(reg func(f intrinsicFn, names ...string)) {
 		return nil
 	}, P+"Goal")
 	reg(func(e *Exec, fn *ssa.Function, args []Value) Value {
+		e.env.ticks = int(e.concretise(args[0].(*Term)))
+		e.env.modelOnly = true
+		return nil
+	}, P+"SetTicks")
+	reg(func(e *Exec, fn *ssa.Function, args []Value) Value {
 		e.obs = append(e.obs, ObsRec{Label: e.strArg(args[0]), Kind: "int", Terms: []*Term{args[1].(*Term)}})
 		return nil
 	}, P+"ObserveInt")
